@@ -556,8 +556,11 @@ def stream_malformed(c):
                 c.disagree("accept/reject of a bound shape", dict(s=s_, blen=blen), mo, impl)
 
 
-def benign_case(rng):
-    """an instance whose solve is harmless: boxes, convex objective through a quadratic path term"""
+def benign_case(rng, integrate=False):
+    """an instance whose solve is harmless: boxes, convex objective through a quadratic path term.
+    `integrate`: the same with integrate_states = True (single shooting), a path constraint x0 <= ub that is
+    active at the last time stamp (the objective pulls x0(t_last) up), no nominals and no point terms on
+    controls (state_at / extract_results are not usable with them in that mode, see the report)"""
     dt = gen_case(rng, poly=False)
     dt["pcs"] = []
     dt["pts"] = [[] for _ in range(dt["E"])]
@@ -567,7 +570,14 @@ def benign_case(rng):
                   (1.0, ("p2",))]
     dt["obj"] = [[(2.0 + m, (("at", "x0", len(dt["ts"]) - 1),)), (0.5, (("at", "u0", 0),))] for m in range(dt["E"])]
     dt["hist"] = [dict() for _ in range(dt["E"])]
+    if integrate:
+        n = len(dt["ts"])
+        dt["nom"] = {}
+        dt["obj"] = [[(-8.0 - m, (("at", "x0", n - 1),)), (1.0, (("at", "x0", 0),))] for m in range(dt["E"])]
+        dt["pcs"] = [dict(s=1, exprs=[[(1.0, ("x0",))]],
+                          bnds=[(("sc", -INF), ("sc", 1.0 + 0.25 * m)) for m in range(dt["E"])])]
     s = case_spec(dt)
+    s.integrate = integrate
     s.bnds.update({x: (-20.0, 20.0) for x in dt["states"] + dt["algs"]})
     return dt, s
 
@@ -611,6 +621,37 @@ def readback(c, pr, dt, s, label, view):
     elif not close(f_doc, ov, rtol=1e-6, atol=1e-6):
         c.fail("objective_value differs from the documented formula on extract_results() (%s)" % label, view,
                dict(objective_value=ov, formula_on_results=f_doc))
+    if dt["pcs"] and "unsuccessful" not in label:
+        bad = path_constraints_on_results(dt, s, pr)
+        if bad:
+            c.fail("a path constraint does not hold at every collocation time on the returned trajectories (%s)" % label,
+                   view, bad[:4])
+
+
+def path_constraints_on_results(dt, s, pr, tol=1e-5):
+    """(member, time index, row, value, lb, ub) wherever lb <= Gpath(env m i) <= ub fails on extract_results()"""
+    n = len(dt["ts"])
+    bad = []
+    for m in range(dt["E"]):
+        res = pr.extract_results(m)
+        traj = {k: np.asarray(res[k], dtype=float) for k in dt["states"] + dt["algs"] + dt["controls"]}
+        for x in dt["states"]:
+            traj["initial_der(%s)" % x] = float(np.asarray(res["initial_der(%s)" % x]).ravel()[0])
+        for w, sz in dt["pathvars"]:
+            v = np.asarray(res[w], dtype=float)
+            traj[w] = v.reshape((n, sz)) if v.ndim == 1 else v
+        for e, sz in dt["extravars"]:
+            traj[e] = np.asarray(res[e], dtype=float).reshape(-1)
+        for i, t in enumerate(dt["ts"]):
+            env = env_at(s, traj, m, i)
+            for pc in dt["pcs"]:
+                lb, ub = pc["bnds"][m]
+                for r, ex in enumerate(pc["exprs"]):
+                    v = eval_path(ex, env)
+                    lo, hi = bound_at(lb, r, t, True), bound_at(ub, r, t, False)
+                    if v < lo - tol * max(1.0, abs(lo)) or v > hi + tol * max(1.0, abs(hi)):
+                        bad.append((m, i, r, v, lo, hi))
+    return bad
 
 
 def stream_solve(c, N):
@@ -621,17 +662,19 @@ def stream_solve(c, N):
     tries = 0
     while done < N and tries < 4 * N:
         tries += 1
-        dt, s = benign_case(rng)
+        integrate = tries % 2 == 0
+        dt, s = benign_case(rng, integrate)
         pr = cls(spec=s)
         with quiet_fd():
             r = call(pr.optimize)
         if r[0] == "raise" or not r[1]:
-            c.hit("c06/solve-not-converged")
+            c.hit("c06/solve-not-converged" + ("-integrate" if integrate else ""))
             continue
         done += 1
-        c.count(("c06-solve", dt["E"], len(dt["ts"]), tuple(dt["probs"])))
-        c.hit("c06/solved")
-        readback(c, pr, dt, s, "a successful solve", dict(stream="c06-solve", case=dt))
+        c.count(("c06-solve", dt["E"], len(dt["ts"]), tuple(dt["probs"]), integrate))
+        c.hit("c06/solved" + ("-integrate_states" if integrate else ""))
+        readback(c, pr, dt, s, "a successful solve" + (", integrate_states" if integrate else ""),
+                 dict(stream="c06-solve", integrate_states=integrate, case=dt))
 
 
 def stream_resolve(c, N):
@@ -640,12 +683,16 @@ def stream_resolve(c, N):
     rng = c.rng
     cls = syn_class(())
     for q in range(N):
-        dt, s = benign_case(rng)
+        integrate = q % 4 >= 2
+        dt, s = benign_case(rng, integrate)
         order = "success-then-failure" if q % 2 == 0 else "failure-then-success"
+        if integrate:
+            order += ", integrate_states"
+            c.hit("c06/resolve-integrate_states")
         pr = cls(spec=s)
         outcomes = []
         for step in (0, 1):
-            limited = (step == 1) == (order == "success-then-failure")
+            limited = (step == 1) == order.startswith("success-then-failure")
             s.ipopt = {"max_iter": rng.choice([0, 1, 1, 2])} if limited else None
             if step == 1:
                 before = change_between_runs(rng, dt)
@@ -720,8 +767,8 @@ def run(c):
     stream_rerun(c, c.n(40, 500))
     with warnings.catch_warnings():
         warnings.simplefilter("ignore")
-        stream_solve(c, c.n(8, 80))
-        stream_resolve(c, c.n(10, 100))
+        stream_solve(c, c.n(12, 100))
+        stream_resolve(c, c.n(12, 100))
     c.exhaustive = False
     c.notes.append(
         "user rows are isolated as the multiset difference between the full transcription and the transcription of "
